@@ -1,4 +1,5 @@
 //! `rlv` — the verification harness binary. One subcommand per engine.
+mod colenc;
 mod crash;
 mod e4;
 mod faultinj;
@@ -16,6 +17,7 @@ fn main() {
         "sql" => sqlrun::main(&args[2..]),
         "e4" => e4::main(&args[2..]),
         "crash" => crash::main(&args[2..]),
+        "col" => colenc::main(&args[2..]),
         "ops" => ops::main(&args[2..]),
         "plan" => planx::main(&args[2..]),
         "fault" => faultinj::main(&args[2..]),
